@@ -223,7 +223,16 @@ fn run_case(rep: &mut Report, case: u64) {
     for (i, d) in drivers.iter().enumerate() {
         d.register(&mut world, (case as usize + i) as u8 % 6);
     }
-    let n = if cfg.extra_u64("big", 0) == 1 { rng.range(1, 40) } else { rng.range(1, 10) };
+    // one cell in eight has a population above the sizes at which batch paths may change strategy
+    // (64 = one mask word); never under Miri, where a cell of that size takes minutes
+    let large = !cfg!(miri) && rng.chance(1, 8);
+    let n = if large {
+        rng.range(65, 260)
+    } else if cfg.extra_u64("big", 0) == 1 {
+        rng.range(1, 40)
+    } else {
+        rng.range(1, 10)
+    };
     let ents: Vec<Entity> = world.create_iter().take(n).collect();
     // make room for default-filled gaps: a few leading entities without components
     let mut st = P {
@@ -566,6 +575,9 @@ fn run_case(rep: &mut Report, case: u64) {
     rep.bump("event_replays_across_caught_panic", event_replays);
     if injected {
         rep.bump("cases_with_injected_panic", 1);
+        if n >= 65 {
+            rep.bump("cases_with_injected_panic_population_over_64", 1);
+        }
         rep.bump(&format!("panicked_in_{}", OPS[op]), 1);
     } else {
         rep.bump("cases_where_k_exceeded_destructions", 1);
